@@ -455,6 +455,76 @@ def case_init(props):
 
 
 # --------------------------------------------------------------------------
+# H3: two boards alive in one process do not interfere
+# --------------------------------------------------------------------------
+def case_two_boards(props, when, declarer_a=1, declarer_b=2):
+    """Board A (real constructor, symbolic deal) gets its opening lead; board B is constructed `when` = 'before' or
+    'after' that play.  B must be exactly a fresh board: nothing on its table, its leader is offered the whole hand."""
+    from bridge_env import Hands, Player, PlayingPhaseWithHands
+
+    def mk(eng, tag, declarer):
+        c, dom, v = sym_contract(tag)
+        eng.assume(dom)
+        eng.assume(v['dcl'] == declarer)
+        c.attrs['declarer'] = Player(declarer)
+        hs = {p: cardmod.fresh_cardset(f'hand{p}{tag}') for p in range(1, 5)}
+        for i in range(52):
+            bits = [hs[p].bits[i] for p in range(1, 5)]
+            eng.assume(z3.And([z3.Not(z3.And(bits[a], bits[b])) for a in range(4) for b in range(a + 1, 4)]))
+        for p in range(1, 5):
+            eng.assume(z3.And(hs[p].axioms(), hs[p].n == 13))
+        deal = {p: hs[p].copy() for p in range(1, 5)}
+        return c, v, hs, deal
+
+    def path(eng):
+        ca, va, hsa, deal_a = mk(eng, '_a', declarer_a)
+        cb, vb, hsb, deal_b = mk(eng, '_b', declarer_b)
+        r, s_ = z3.Int('lead_rank'), z3.Int('lead_suit')
+        eng.assume(z3.And(2 <= r, r <= 14, 1 <= s_, s_ <= 4))
+        la, lb = declarer_a % 4 + 1, declarer_b % 4 + 1
+        ci = cidx(r, s_)
+        eng.assume(z3.Or([z3.And(ci == i, deal_a[la].bits[i]) for i in range(52)]))     # A's opening leader holds the card
+
+        def cex(m):
+            ev = lambda z: hx.mval(m, z)
+            return {'kind': 'two_boards', 'props': sorted(props), 'when': when,
+                    'a': {'contract': {'bid': ev(va['b']), 'x': ev(va['x']), 'xx': ev(va['xx']), 'vul': ev(va['vul']), 'declarer': declarer_a},
+                          'deal': {str(p): [i for i in range(52) if ev(deal_a[p].bits[i]) is True] for p in range(1, 5)}},
+                    'b': {'contract': {'bid': ev(vb['b']), 'x': ev(vb['x']), 'xx': ev(vb['xx']), 'vul': ev(vb['vul']), 'declarer': declarer_b},
+                          'deal': {str(p): [i for i in range(52) if ev(deal_b[p].bits[i]) is True] for p in range(1, 5)}},
+                    'lead': (ev(s_) - 1) * 13 + ev(r) - 2}
+        try:
+            A = eng.construct(PlayingPhaseWithHands, [ca, SObj(Hands, {SEATS[p]: hsa[p] for p in range(1, 5)})], {})
+            B = eng.construct(PlayingPhaseWithHands, [cb, SObj(Hands, {SEATS[p]: hsb[p] for p in range(1, 5)})], {}) if when == 'before' else None
+            eng.call_function(PlayingPhaseWithHands.play_card_by_player, [A, cardmod.sym_card(r, s_), Player(la)], {})
+            if B is None:
+                B = eng.construct(PlayingPhaseWithHands, [cb, SObj(Hands, {SEATS[p]: hsb[p] for p in range(1, 5)})], {})
+        except symx.RaiseEx as e:
+            return dict(outcome='raise', cex=cex, checks=[(f'{q}: two boards can be constructed and the first one led to ({e.exc!r})', False) for q in sorted(props)])
+        fr = symx.Frame(eng, PlayingPhaseWithHands.play_card_by_player, {})
+        tc = fr.getattr(B, '_trick_cards')
+        chk = []
+
+        def add(tags, label, cond):
+            for q in sorted(tags & props):
+                chk.append((f'{q}: {label}', cond))
+        from bridge_env import Pair
+        add({'C04', 'C05', 'C06'}, f'the second board (constructed {when} the lead to the first) has nothing on its table', len(tc) == 0)
+        add({'C04'}, 'the second board: its own opening leader is on turn, trick 1, no tricks taken, empty history',
+            z3.And(zenum(fr.getattr(B, 'leader')) == lb, zenum(fr.getattr(B, 'active_player')) == lb, zint(fr.getattr(B, 'trick_num')) == 1,
+                   zint(fr.getattr(B, 'taken_tricks')[Pair.NS]) == 0, zint(fr.getattr(B, 'taken_tricks')[Pair.EW]) == 0))
+        hb = fr.getattr(B, 'hands')
+        add({'C05'}, 'the second board holds exactly its own deal and no played cards',
+            z3.And([hb.attrs[SEATS[p]].bits[i] == deal_b[p].bits[i] for p in range(1, 5) for i in range(52)] +
+                   [z3.Not(b) for b in fr.getattr(B, 'used_cards').bits]))
+        av = eng.call_function(PlayingPhaseWithHands.current_available_cards_in_hand, [B, Player(lb)], {})
+        add({'C06'}, 'the second board offers its leader the whole hand',
+            z3.And([av.bits[i] == deal_b[lb].bits[i] for i in range(52)]) if isinstance(av, CardSet) else z3.BoolVal(False))
+        return dict(outcome='two boards', checks=chk, cex=cex)
+    return hx.explore_case(path, dict(max_paths=5000))
+
+
+# --------------------------------------------------------------------------
 # H2: BMC from the constructor, symbolic deal, first n plays by the seat on turn (+ one arbitrary attempt)
 # --------------------------------------------------------------------------
 def case_bmc(props, n, declarer):
